@@ -125,10 +125,10 @@ def tailAfter : Bool → Content → Bool
 /-- ATTR events on a pending element -/
 theorem hLoop_attrs (env : NsEnv) (cfg : Cfg) (attrs : List (Str × Val)) :
     ∀ (M : NsMap) (A : Attrs) (M2 : NsMap) (A2 : Attrs), attrsRun env attrs M A = some (M2, A2) →
-    ∀ (par : Option (List NsMap)) (tag : EName) (it : Bool) (tl : Option Str) (pp : List (List Pfx)) (lv : Int) (pe : Bool)
+    ∀ (par : Option (List NsMap)) (tag : EName) (it : Bool) (tl : Option Str) (pp : List (List Pfx)) (lv : Int) (pe : Bool) (ac : Bool)
       (rest : List Ev),
-    hLoop env cfg false ⟨M, par, some tag, A, it, tl, pp, lv, pe⟩ (attrEvents attrs ++ rest)
-      = hLoop env cfg false ⟨M2, par, some tag, A2, it, tl, pp, lv, pe⟩ rest := by
+    hLoop env cfg false ⟨M, par, some tag, A, it, tl, pp, lv, pe, ac⟩ (attrEvents attrs ++ rest)
+      = hLoop env cfg false ⟨M2, par, some tag, A2, it, tl, pp, lv, pe, ac⟩ rest := by
   induction attrs with
   | nil =>
     intro M A M2 A2 h
@@ -137,7 +137,7 @@ theorem hLoop_attrs (env : NsEnv) (cfg : Cfg) (attrs : List (Str × Val)) :
     intros; rfl
   | cons a r ih =>
     obtain ⟨q, v⟩ := a
-    intro M A M2 A2 h par tag it tl pp lv pe rest
+    intro M A M2 A2 h par tag it tl pp lv pe ac rest
     simp only [attrsRun] at h
     split at h
     · cases h
@@ -145,13 +145,13 @@ theorem hLoop_attrs (env : NsEnv) (cfg : Cfg) (attrs : List (Str × Val)) :
       split at h
       · cases h
       · rename_i val m' he
-        have hs : hStep env cfg false ⟨M, par, some tag, A, it, tl, pp, lv, pe⟩ (Ev.attr q v)
-            = ([], .ok ⟨m', par, some tag, dset A name val, it, tl, pp, lv, pe⟩) := by
+        have hs : hStep env cfg false ⟨M, par, some tag, A, it, tl, pp, lv, pe, ac⟩ (Ev.attr q v)
+            = ([], .ok ⟨m', par, some tag, dset A name val, it, tl, pp, lv, pe, ac⟩) := by
           simp [hStep, hAddAttribute, hq, he]
         simp only [attrEvents, List.map_cons, List.cons_append]
         rw [hLoop_cons_ok env cfg _ _ _ _ _ hs]
         simp only [prepend_nil]
-        exact ih m' (dset A name val) M2 A2 h par tag it tl pp lv pe rest
+        exact ih m' (dset A name val) M2 A2 h par tag it tl pp lv pe ac rest
 
 end Proofs.TreeWriter
 
@@ -163,16 +163,16 @@ def baseOf : List NsMap → NsMap
   | [] => []
 
 theorem flushStart_pending (env : NsEnv) (isNil : Bool) (M2 : NsMap) (pl : List NsMap) (tag : EName)
-    (A : Attrs) (it : Bool) (tl : Option Str) (pp : List (List Pfx)) (lv : Int) (pe : Bool) :
-    flushStart env isNil ⟨M2, some pl, some tag, A, it, tl, pp, lv, pe⟩
+    (A : Attrs) (it : Bool) (tl : Option Str) (pp : List (List Pfx)) (lv : Int) (pe : Bool) (ac : Bool) :
+    flushStart env isNil ⟨M2, some pl, some tag, A, it, tl, pp, lv, pe, ac⟩
       = ((flushed env isNil (baseOf pl) tag A M2).calls,
          ⟨(flushed env isNil (baseOf pl) tag A M2).map, some pl, none, [], false, tl,
-          (flushed env isNil (baseOf pl) tag A M2).prefixes :: pp, lv, pe⟩) := by
+          (flushed env isNil (baseOf pl) tag A M2).prefixes :: pp, lv, pe, ac⟩) := by
   cases pl <;> simp [flushStart, flushed, baseOf]
 
 theorem flushStart_idle (env : NsEnv) (isNil : Bool) (M : NsMap) (par : Option (List NsMap))
-    (A : Attrs) (it : Bool) (tl : Option Str) (pp : List (List Pfx)) (lv : Int) (pe : Bool) :
-    flushStart env isNil ⟨M, par, none, A, it, tl, pp, lv, pe⟩ = ([], ⟨M, par, none, A, it, tl, pp, lv, pe⟩) := by
+    (A : Attrs) (it : Bool) (tl : Option Str) (pp : List (List Pfx)) (lv : Int) (pe : Bool) (ac : Bool) :
+    flushStart env isNil ⟨M, par, none, A, it, tl, pp, lv, pe, ac⟩ = ([], ⟨M, par, none, A, it, tl, pp, lv, pe, ac⟩) := by
   simp [flushStart]
 
 def endMap : List NsMap → NsMap → NsMap
@@ -185,10 +185,10 @@ def endParents : List NsMap → Option (List NsMap)
 
 /-- END on a flushed element -/
 theorem hEndTag_idle (env : NsEnv) (q : Str) (tag : EName) (hq : splitQName q = .ok tag) (M : NsMap) (pl : List NsMap)
-    (it : Bool) (pre : List Pfx) (pp : List (List Pfx)) (lv : Int) (pe : Bool) :
-    hEndTag env q ⟨M, some pl, none, [], it, none, pre :: pp, lv, pe⟩
+    (it : Bool) (pre : List Pfx) (pp : List (List Pfx)) (lv : Int) (pe : Bool) (ac : Bool) :
+    hEndTag env q ⟨M, some pl, none, [], it, none, pre :: pp, lv, pe, ac⟩
       = (Call.endElem tag :: pre.map Call.endPrefix,
-         .ok ⟨endMap pl M, endParents pl, none, [], false, none, pp, lv, pe⟩) := by
+         .ok ⟨endMap pl M, endParents pl, none, [], false, none, pp, lv, pe, ac⟩) := by
   cases pl <;> simp [hEndTag, flushStart, hq, endMap, endParents]
 
 end Proofs.TreeWriter
@@ -198,34 +198,34 @@ open Py Xs.Ns Xs.Sax Xs.Writer Spec.EventTree
 
 /-- END on a pending element -/
 theorem hEndTag_pending (env : NsEnv) (q : Str) (tag : EName) (hq : splitQName q = .ok tag) (M2 : NsMap)
-    (pl : List NsMap) (A : Attrs) (it : Bool) (pp : List (List Pfx)) (lv : Int) (pe : Bool) :
-    hEndTag env q ⟨M2, some pl, some tag, A, it, none, pp, lv, pe⟩
+    (pl : List NsMap) (A : Attrs) (it : Bool) (pp : List (List Pfx)) (lv : Int) (pe : Bool) (ac : Bool) :
+    hEndTag env q ⟨M2, some pl, some tag, A, it, none, pp, lv, pe, ac⟩
       = ((flushed env true (baseOf pl) tag A M2).calls ++ closing tag (flushed env true (baseOf pl) tag A M2),
-         .ok ⟨endMap pl (flushed env true (baseOf pl) tag A M2).map, endParents pl, none, [], false, none, pp, lv, pe⟩) := by
+         .ok ⟨endMap pl (flushed env true (baseOf pl) tag A M2).map, endParents pl, none, [], false, none, pp, lv, pe, ac⟩) := by
   unfold hEndTag
   rw [flushStart_pending]
   cases pl <;> simp [hq, endMap, endParents, closing]
 
 /-- START while the parent is still pending: the parent is flushed first -/
 theorem hStartTag_pending (env : NsEnv) (q : Str) (M2 : NsMap) (pl : List NsMap) (tag : EName)
-    (A : Attrs) (it : Bool) (pp : List (List Pfx)) (lv : Int) (pe : Bool) :
-    hStartTag env q ⟨M2, some pl, some tag, A, it, none, pp, lv, pe⟩
+    (A : Attrs) (it : Bool) (pp : List (List Pfx)) (lv : Int) (pe : Bool) (ac : Bool) :
+    hStartTag env q ⟨M2, some pl, some tag, A, it, none, pp, lv, pe, ac⟩
       = ((flushed env false (baseOf pl) tag A M2).calls ++
           (hStartTag env q ⟨(flushed env false (baseOf pl) tag A M2).map, some pl, none, [], false, none,
-            (flushed env false (baseOf pl) tag A M2).prefixes :: pp, lv, pe⟩).1,
+            (flushed env false (baseOf pl) tag A M2).prefixes :: pp, lv, pe, ac⟩).1,
          (hStartTag env q ⟨(flushed env false (baseOf pl) tag A M2).map, some pl, none, [], false, none,
-            (flushed env false (baseOf pl) tag A M2).prefixes :: pp, lv, pe⟩).2) := by
+            (flushed env false (baseOf pl) tag A M2).prefixes :: pp, lv, pe, ac⟩).2) := by
   unfold hStartTag
   rw [flushStart_pending]
   simp only [flushStart_idle]
   cases splitQName q <;> simp
 
 theorem hLoop_start_pending (env : NsEnv) (cfg : Cfg) (q : Str) (M2 : NsMap) (pl : List NsMap) (tag : EName)
-    (A : Attrs) (it : Bool) (pp : List (List Pfx)) (lv : Int) (pe : Bool) (r : List Ev) :
-    hLoop env cfg false ⟨M2, some pl, some tag, A, it, none, pp, lv, pe⟩ (Ev.start q :: r)
+    (A : Attrs) (it : Bool) (pp : List (List Pfx)) (lv : Int) (pe : Bool) (ac : Bool) (r : List Ev) :
+    hLoop env cfg false ⟨M2, some pl, some tag, A, it, none, pp, lv, pe, ac⟩ (Ev.start q :: r)
       = prepend (flushed env false (baseOf pl) tag A M2).calls
           (hLoop env cfg false ⟨(flushed env false (baseOf pl) tag A M2).map, some pl, none, [], false, none,
-            (flushed env false (baseOf pl) tag A M2).prefixes :: pp, lv, pe⟩ (Ev.start q :: r)) := by
+            (flushed env false (baseOf pl) tag A M2).prefixes :: pp, lv, pe, ac⟩ (Ev.start q :: r)) := by
   simp only [hLoop, hStep]
   rw [hStartTag_pending]
   generalize hStartTag env q _ = res
@@ -240,21 +240,21 @@ open Py Xs.Ns Xs.Sax Xs.Writer Spec.EventTree
 /-- the two halves of L1 for one forest -/
 def L1 (env : NsEnv) (cfg : Cfg) (c : Content) : Prop :=
   (∀ M it cs, calls env (.content M it) c = some cs →
-    ∀ (ps : List NsMap) (pre : List Pfx) (pp : List (List Pfx)) (lv : Int) (pe : Bool) (rest : List Ev),
-     hLoop env cfg false ⟨M, some ps, none, [], it, none, pre :: pp, lv, pe⟩ (flatten c ++ rest)
-     = prepend cs (hLoop env cfg false ⟨M, some ps, none, [], tailAfter it c, none, pre :: pp, lv, pe⟩ rest))
+    ∀ (ps : List NsMap) (pre : List Pfx) (pp : List (List Pfx)) (lv : Int) (pe : Bool) (ac : Bool) (rest : List Ev),
+     hLoop env cfg false ⟨M, some ps, none, [], it, none, pre :: pp, lv, pe, ac⟩ (flatten c ++ rest)
+     = prepend cs (hLoop env cfg false ⟨M, some ps, none, [], tailAfter it c, none, pre :: pp, lv, pe, ac⟩ rest))
   ∧
   (∀ base tag A M2 cs, calls env (.body base tag A M2) c = some cs →
-    ∀ (pl : List NsMap) (pp : List (List Pfx)) (it : Bool) (lv : Int) (pe : Bool) (q : Str) (rest : List Ev),
+    ∀ (pl : List NsMap) (pp : List (List Pfx)) (it : Bool) (lv : Int) (pe : Bool) (ac : Bool) (q : Str) (rest : List Ev),
      splitQName q = .ok tag → base = baseOf pl →
-     ∃ mfin, hLoop env cfg false ⟨M2, some pl, some tag, A, it, none, pp, lv, pe⟩ (flatten c ++ Ev.end_ q :: rest)
-       = prepend cs (hLoop env cfg false ⟨endMap pl mfin, endParents pl, none, [], false, none, pp, lv, pe⟩ rest))
+     ∃ mfin, hLoop env cfg false ⟨M2, some pl, some tag, A, it, none, pp, lv, pe, ac⟩ (flatten c ++ Ev.end_ q :: rest)
+       = prepend cs (hLoop env cfg false ⟨endMap pl mfin, endParents pl, none, [], false, none, pp, lv, pe, ac⟩ rest))
 
 theorem hSetData_idle (env : NsEnv) (v : Val) (M : NsMap) (val : Option Str)
     (he : encodeData env v M = .ok (val, M)) (par : Option (List NsMap)) (it : Bool) (pp : List (List Pfx))
-    (lv : Int) (pe : Bool) :
-    hSetData env v ⟨M, par, none, [], it, none, pp, lv, pe⟩
-      = (charsCalls val, .ok ⟨M, par, none, [], true, none, pp, lv, pe⟩) := by
+    (lv : Int) (pe : Bool) (ac : Bool) :
+    hSetData env v ⟨M, par, none, [], it, none, pp, lv, pe, ac⟩
+      = (charsCalls val, .ok ⟨M, par, none, [], true, none, pp, lv, pe, ac⟩) := by
   unfold hSetData
   rw [he]
   simp only [flushStart_idle]
@@ -267,11 +267,11 @@ theorem hSetData_idle (env : NsEnv) (v : Val) (M : NsMap) (val : Option Str)
 
 theorem hSetData_pending (env : NsEnv) (v : Val) (M2 M3 : NsMap) (val : Option Str)
     (he : encodeData env v M2 = .ok (val, M3)) (pl : List NsMap) (tag : EName) (A : Attrs) (it : Bool)
-    (pp : List (List Pfx)) (lv : Int) (pe : Bool) :
-    hSetData env v ⟨M2, some pl, some tag, A, it, none, pp, lv, pe⟩
+    (pp : List (List Pfx)) (lv : Int) (pe : Bool) (ac : Bool) :
+    hSetData env v ⟨M2, some pl, some tag, A, it, none, pp, lv, pe, ac⟩
       = ((flushed env val.isNone (baseOf pl) tag A M3).calls ++ charsCalls val,
          .ok ⟨(flushed env val.isNone (baseOf pl) tag A M3).map, some pl, none, [], true, none,
-              (flushed env val.isNone (baseOf pl) tag A M3).prefixes :: pp, lv, pe⟩) := by
+              (flushed env val.isNone (baseOf pl) tag A M3).prefixes :: pp, lv, pe, ac⟩) := by
   unfold hSetData
   rw [he]
   simp only [flushStart_pending]
@@ -286,19 +286,19 @@ theorem l1_all (env : NsEnv) (cfg : Cfg) (c : Content) : L1 env cfg c := by
   induction c with
   | nil =>
     refine ⟨?_, ?_⟩
-    · intro M it cs h ps pre pp lv pe rest
+    · intro M it cs h ps pre pp lv pe ac rest
       simp [calls] at h
       subst h
       simp [flatten, tailAfter]
-    · intro base tag A M2 cs h pl pp it lv pe q rest hq hb
+    · intro base tag A M2 cs h pl pp it lv pe ac q rest hq hb
       simp [calls] at h
       subst h; subst hb
       refine ⟨(flushed env true (baseOf pl) tag A M2).map, ?_⟩
       simp only [flatten, List.nil_append]
-      exact hLoop_cons_ok env cfg _ _ _ _ _ (by simp [hStep]; exact hEndTag_pending env q tag hq M2 pl A it pp lv pe)
+      exact hLoop_cons_ok env cfg _ _ _ _ _ (by simp [hStep]; exact hEndTag_pending env q tag hq M2 pl A it pp lv pe ac)
   | data v k ih =>
     refine ⟨?_, ?_⟩
-    · intro M it cs h ps pre pp lv pe rest
+    · intro M it cs h ps pre pp lv pe ac rest
       simp only [calls] at h
       split at h
       · cases h
@@ -312,23 +312,23 @@ theorem l1_all (env : NsEnv) (cfg : Cfg) (c : Content) : L1 env cfg c := by
           cases val with
           | none =>
             simp only [] at h
-            rw [hLoop_cons_ok env cfg _ _ _ _ _ (by simp [hStep]; exact hSetData_idle env v M' none he (some ps) it (pre :: pp) lv pe)]
-            rw [ih.1 M' true cs h ps pre pp lv pe rest]
+            rw [hLoop_cons_ok env cfg _ _ _ _ _ (by simp [hStep]; exact hSetData_idle env v M' none he (some ps) it (pre :: pp) lv pe ac)]
+            rw [ih.1 M' true cs h ps pre pp lv pe ac rest]
             simp [charsCalls]
           | some x =>
             simp only [] at h
             by_cases hx : x.isEmpty = true
             · simp only [hx, if_true] at h
-              rw [hLoop_cons_ok env cfg _ _ _ _ _ (by simp [hStep]; exact hSetData_idle env v M' (some x) he (some ps) it (pre :: pp) lv pe)]
-              rw [ih.1 M' true cs h ps pre pp lv pe rest]
+              rw [hLoop_cons_ok env cfg _ _ _ _ _ (by simp [hStep]; exact hSetData_idle env v M' (some x) he (some ps) it (pre :: pp) lv pe ac)]
+              rw [ih.1 M' true cs h ps pre pp lv pe ac rest]
               simp [charsCalls, hx]
             · simp only [hx] at h
               simp at h
               obtain ⟨r, hr, rfl⟩ := h
-              rw [hLoop_cons_ok env cfg _ _ _ _ _ (by simp [hStep]; exact hSetData_idle env v M' (some x) he (some ps) it (pre :: pp) lv pe)]
-              rw [ih.1 M' true r hr ps pre pp lv pe rest]
+              rw [hLoop_cons_ok env cfg _ _ _ _ _ (by simp [hStep]; exact hSetData_idle env v M' (some x) he (some ps) it (pre :: pp) lv pe ac)]
+              rw [ih.1 M' true r hr ps pre pp lv pe ac rest]
               simp [charsCalls, hx, prepend_prepend]
-    · intro base tag A M2 cs h pl pp it lv pe q rest hq hb
+    · intro base tag A M2 cs h pl pp it lv pe ac q rest hq hb
       subst hb
       simp only [calls] at h
       split at h
@@ -338,16 +338,16 @@ theorem l1_all (env : NsEnv) (cfg : Cfg) (c : Content) : L1 env cfg c := by
         obtain ⟨r, hr, rfl⟩ := h
         refine ⟨(flushed env val.isNone (baseOf pl) tag A M3).map, ?_⟩
         simp only [flatten, List.cons_append]
-        rw [hLoop_cons_ok env cfg _ _ _ _ _ (by simp [hStep]; exact hSetData_pending env v M2 M3 val he pl tag A it pp lv pe)]
-        rw [ih.1 _ true r hr pl _ pp lv pe (Ev.end_ q :: rest)]
-        rw [hLoop_cons_ok env cfg _ _ _ _ _ (by simp [hStep]; exact hEndTag_idle env q tag hq _ pl _ _ pp lv pe)]
+        rw [hLoop_cons_ok env cfg _ _ _ _ _ (by simp [hStep]; exact hSetData_pending env v M2 M3 val he pl tag A it pp lv pe ac)]
+        rw [ih.1 _ true r hr pl _ pp lv pe ac (Ev.end_ q :: rest)]
+        rw [hLoop_cons_ok env cfg _ _ _ _ _ (by simp [hStep]; exact hEndTag_idle env q tag hq _ pl _ _ pp lv pe ac)]
         simp [prepend_prepend, closing]
   | child q0 attrs kids rest0 ihk ihr =>
     have hcontent : ∀ M it cs, calls env (.content M it) (.child q0 attrs kids rest0) = some cs →
-        ∀ (ps : List NsMap) (pre : List Pfx) (pp : List (List Pfx)) (lv : Int) (pe : Bool) (rest : List Ev),
-        hLoop env cfg false ⟨M, some ps, none, [], it, none, pre :: pp, lv, pe⟩ (flatten (.child q0 attrs kids rest0) ++ rest)
-        = prepend cs (hLoop env cfg false ⟨M, some ps, none, [], tailAfter it (.child q0 attrs kids rest0), none, pre :: pp, lv, pe⟩ rest) := by
-      intro M it cs h ps pre pp lv pe rest
+        ∀ (ps : List NsMap) (pre : List Pfx) (pp : List (List Pfx)) (lv : Int) (pe : Bool) (ac : Bool) (rest : List Ev),
+        hLoop env cfg false ⟨M, some ps, none, [], it, none, pre :: pp, lv, pe, ac⟩ (flatten (.child q0 attrs kids rest0) ++ rest)
+        = prepend cs (hLoop env cfg false ⟨M, some ps, none, [], tailAfter it (.child q0 attrs kids rest0), none, pre :: pp, lv, pe, ac⟩ rest) := by
+      intro M it cs h ps pre pp lv pe ac rest
       simp only [calls] at h
       split at h
       · cases h
@@ -359,19 +359,19 @@ theorem l1_all (env : NsEnv) (cfg : Cfg) (c : Content) : L1 env cfg c := by
           · rename_i b r hb hr
             cases h
             simp only [flatten, List.cons_append, List.append_assoc, tailAfter]
-            have hs : hStep env cfg false ⟨M, some ps, none, [], it, none, pre :: pp, lv, pe⟩ (Ev.start q0)
-                = ([], .ok ⟨addNamespace env tag.1 M, some (M :: ps), some tag, [], it, none, pre :: pp, lv, pe⟩) := by
+            have hs : hStep env cfg false ⟨M, some ps, none, [], it, none, pre :: pp, lv, pe, ac⟩ (Ev.start q0)
+                = ([], .ok ⟨addNamespace env tag.1 M, some (M :: ps), some tag, [], it, none, pre :: pp, lv, pe, ac⟩) := by
               simp [hStep, hStartTag, flushStart_idle, hq]
             rw [hLoop_cons_ok env cfg _ _ _ _ _ hs, prepend_nil]
             rw [hLoop_attrs env cfg attrs _ _ _ _ ha]
-            obtain ⟨mfin, hbody⟩ := ihk.2 M tag A M2 b hb (M :: ps) (pre :: pp) it lv pe q0 (flatten rest0 ++ rest) hq rfl
+            obtain ⟨mfin, hbody⟩ := ihk.2 M tag A M2 b hb (M :: ps) (pre :: pp) it lv pe ac q0 (flatten rest0 ++ rest) hq rfl
             rw [hbody]
             simp only [endMap, endParents]
-            rw [ihr.1 M false r hr ps pre pp lv pe rest]
+            rw [ihr.1 M false r hr ps pre pp lv pe ac rest]
             simp [prepend_prepend]
           · cases h
     refine ⟨hcontent, ?_⟩
-    intro base tag A M2 cs h pl pp it lv pe q rest hq hb
+    intro base tag A M2 cs h pl pp it lv pe ac q rest hq hb
     subst hb
     -- unfold the body definition and fold it back into the content definition at the flushed map
     have hc : ∃ inner, calls env (.content (flushed env false (baseOf pl) tag A M2).map false) (.child q0 attrs kids rest0) = some inner
@@ -394,8 +394,8 @@ theorem l1_all (env : NsEnv) (cfg : Cfg) (c : Content) : L1 env cfg c := by
         = Ev.start q0 :: (attrEvents attrs ++ (flatten kids ++ Ev.end_ q0 :: (flatten rest0 ++ Ev.end_ q :: rest))) := by
       simp [flatten]
     rw [hfl, hLoop_start_pending, ← hfl]
-    rw [hcontent _ false inner hinner pl _ pp lv pe (Ev.end_ q :: rest)]
-    rw [hLoop_cons_ok env cfg _ _ _ _ _ (by simp [hStep]; exact hEndTag_idle env q tag hq _ pl _ _ pp lv pe)]
+    rw [hcontent _ false inner hinner pl _ pp lv pe ac (Ev.end_ q :: rest)]
+    rw [hLoop_cons_ok env cfg _ _ _ _ _ (by simp [hStep]; exact hEndTag_idle env q tag hq _ pl _ _ pp lv pe ac)]
     simp [prepend_prepend, closing]
 
 end Proofs.TreeWriter
@@ -407,7 +407,7 @@ open Py Xs.Ns Xs.Sax Xs.Writer Spec.EventTree
 
 theorem hStep_native_noindent (env : NsEnv) (cfg : Cfg) (hi : cfg.indent = none) (s : HState) (e : Ev) :
     hStep env cfg true s e = hStep env cfg false s e := by
-  cases e <;> simp [hStep, nStartTag, nEndTag, hi]
+  cases e <;> simp [hStep, nStartTag, nEndTag, nSetData, hi]
   rename_i q
   generalize hStartTag env q s = r
   obtain ⟨c, x⟩ := r
@@ -422,8 +422,8 @@ theorem hLoop_native_noindent (env : NsEnv) (cfg : Cfg) (hi : cfg.indent = none)
     simp only [hLoop, hStep_native_noindent env cfg hi, ih]
 
 theorem hAddAttribute_root_shape (env : NsEnv) (q : Str) (v : Val) (M : NsMap) (A : Attrs) (s' : HState)
-    (h : (hAddAttribute env q v true ⟨M, none, none, A, false, none, [], 0, false⟩).2 = .ok s') :
-    s' = ⟨s'.nsMap, none, none, s'.attrs, false, none, [], 0, false⟩ := by
+    (h : (hAddAttribute env q v true ⟨M, none, none, A, false, none, [], 0, false, false⟩).2 = .ok s') :
+    s' = ⟨s'.nsMap, none, none, s'.attrs, false, none, [], 0, false, false⟩ := by
   unfold hAddAttribute at h
   cases hq : splitQName q with
   | error e => simp [hq] at h
@@ -436,9 +436,9 @@ theorem hAddAttribute_root_shape (env : NsEnv) (q : Str) (v : Val) (M : NsMap) (
       subst h; rfl
 
 theorem rootAttr1_shape (env : NsEnv) (o : Option Str) (qn : Str) (s s' : HState)
-    (hs : s = ⟨s.nsMap, none, none, s.attrs, false, none, [], 0, false⟩)
+    (hs : s = ⟨s.nsMap, none, none, s.attrs, false, none, [], 0, false, false⟩)
     (h : rootAttr1 env o qn s = .ok s') :
-    s' = ⟨s'.nsMap, none, none, s'.attrs, false, none, [], 0, false⟩ := by
+    s' = ⟨s'.nsMap, none, none, s'.attrs, false, none, [], 0, false, false⟩ := by
   unfold rootAttr1 at h
   cases o with
   | none => cases h; exact hs
@@ -451,7 +451,7 @@ theorem rootAttr1_shape (env : NsEnv) (o : Option Str) (qn : Str) (s s' : HState
 
 theorem rootAttrs_shape (env : NsEnv) (cfg : Cfg) (M0 : NsMap) (s0 : HState)
     (h : rootAttrs env cfg (HState.init M0) = .ok s0) :
-    s0 = ⟨s0.nsMap, none, none, s0.attrs, false, none, [], 0, false⟩ := by
+    s0 = ⟨s0.nsMap, none, none, s0.attrs, false, none, [], 0, false, false⟩ := by
   unfold rootAttrs at h
   cases h1 : rootAttr1 env cfg.schemaLocation env.xsiSchemaLocation (HState.init M0) with
   | error e => simp [h1] at h
@@ -471,6 +471,7 @@ def docCalls (env : NsEnv) (cfg : Cfg) (m : List (Pfx × Str)) (q : Str) (attrs 
 
 theorem handlerRun_document (env : NsEnv) (cfg : Cfg) (m : List (Pfx × Str)) (q : Str)
     (attrs : List (Str × Val)) (kids : Content) (cs : List Call)
+    (hv : prefixesValid env (serializerNsMap m) = true)
     (h : docCalls env cfg m q attrs kids = some cs) :
     handlerRun env cfg false m (document q attrs kids) = (cs, none) := by
   unfold docCalls at h
@@ -480,15 +481,16 @@ theorem handlerRun_document (env : NsEnv) (cfg : Cfg) (m : List (Pfx × Str)) (q
     · rename_i M2 A ha
       have hshape := rootAttrs_shape env cfg _ s0 hr
       unfold handlerRun
+      simp only [hv, Bool.not_true, Bool.false_eq_true, if_false]
       rw [hr]
       simp only [document, flatten]
       rw [hshape]
-      have hs : hStep env cfg false ⟨s0.nsMap, none, none, s0.attrs, false, none, [], 0, false⟩ (Ev.start q)
-          = ([], .ok ⟨addNamespace env tag.1 s0.nsMap, some [], some tag, s0.attrs, false, none, [], 0, false⟩) := by
+      have hs : hStep env cfg false ⟨s0.nsMap, none, none, s0.attrs, false, none, [], 0, false, false⟩ (Ev.start q)
+          = ([], .ok ⟨addNamespace env tag.1 s0.nsMap, some [], some tag, s0.attrs, false, none, [], 0, false, false⟩) := by
         simp [hStep, hStartTag, flushStart_idle, hq]
       rw [hLoop_cons_ok env cfg _ _ _ _ _ hs, prepend_nil]
       rw [hLoop_attrs env cfg attrs _ _ _ _ ha]
-      obtain ⟨mfin, hbody⟩ := (l1_all env cfg kids).2 [] tag A M2 cs h [] [] false 0 false q [] hq rfl
+      obtain ⟨mfin, hbody⟩ := (l1_all env cfg kids).2 [] tag A M2 cs h [] [] false 0 false false q [] hq rfl
       rw [hbody]
       simp [hLoop, prepend]
     · cases h
@@ -496,10 +498,12 @@ theorem handlerRun_document (env : NsEnv) (cfg : Cfg) (m : List (Pfx × Str)) (q
 
 theorem handlerRun_native_document (env : NsEnv) (cfg : Cfg) (hi : cfg.indent = none) (m : List (Pfx × Str))
     (q : Str) (attrs : List (Str × Val)) (kids : Content) (cs : List Call)
+    (hv : prefixesValid env (serializerNsMap m) = true)
     (h : docCalls env cfg m q attrs kids = some cs) :
     handlerRun env cfg true m (document q attrs kids) = (cs, none) := by
-  rw [← handlerRun_document env cfg m q attrs kids cs h]
+  rw [← handlerRun_document env cfg m q attrs kids cs hv h]
   unfold handlerRun
+  simp only [hv, Bool.not_true, Bool.false_eq_true, if_false]
   split
   · rfl
   · exact hLoop_native_noindent env cfg hi _ _
